@@ -152,6 +152,46 @@ def run(ctx):
     ctx.count("rejection_rounds_observed", rounds["n"])
     ctx.count("rejection_rounds_empty", rounds["empty"])
 
+    # ------------------------------------------------------------ the generic acceptance-rejection generator with a user-supplied bound
+    # (ARGenerator / multi_sampling with max_weight given as a plain number: too low, about right, far too high, or not given)
+    from scipy.special import erf as _erf
+
+    from tf_pwa.data import data_shape as _dshape
+    from tf_pwa.generator.generator import ARGenerator
+
+    n_ar = ctx.pick(16, 200)
+    for i, rng in ctx.cases("ar_generator", n_ar, budget_s=ctx.pick(120, 900)):
+        x0, sg, hgt = float(rng.uniform(0.2, 0.8)), float(rng.choice([0.01, 0.03, 0.1])), float(rng.choice([5.0, 50.0]))
+        true_max = 1.0 + hgt
+        kind = ["too low", "about right", "far too high", "not given"][i % 4]
+        mw = {"too low": 0.3 * true_max, "about right": 1.02 * true_max, "far too high": 20 * true_max, "not given": None}[kind]
+        if mw is not None and (i // 4) % 2 == 1:
+            mw = np.float64(mw)  # a NumPy scalar instead of a Python float
+        N = int(rng.choice([1, 50, 3000]))
+        desc = {"density": "1 + %g exp(-((x-%.3f)/%.3f)^2) on [0,1]" % (hgt, x0, sg), "max_weight": None if mw is None else float(mw), "max_weight_type": type(mw).__name__,
+                "bound_class": kind, "N": N}
+        ctx.context = desc
+        try:
+            with time_limit(ctx.pick(60, 200)):
+                gen = ARGenerator(lambda n_: tf.random.uniform((n_,), dtype=tf.float64), lambda x_: 1.0 + hgt * tf.exp(-(((x_ - x0) / sg) ** 2)), max_weight=mw)
+                out = np.asarray(gen.generate(N))
+            ctx.check("toy: exactly N events", out.shape == (N,), lambda: dict(desc, got=out.shape), mechanism="ARGenerator count (bound %s)" % kind)
+            if N >= 3000 and out.shape == (N,):
+                edges = np.linspace(0, 1, 21)
+                cdf = lambda t: t + hgt * sg * math.sqrt(math.pi) / 2 * (_erf((t - x0) / sg) - _erf((0 - x0) / sg))
+                pbin = np.diff(cdf(edges)) / (cdf(1.0) - cdf(0.0))
+                obs, _ = np.histogram(out, bins=edges)
+                pv, x2, ndf = chi2_p(obs, pbin * N)
+                if pv is not None:
+                    stat.add("toy: sample follows the model density", "ARGenerator sample does not follow the density (bound %s)" % kind, pv, dict(desc, chi2=x2, ndf=ndf))
+        except CaseTimeout:
+            ctx.count("case_timeout(inconclusive):ar_generator")
+            continue
+        except Exception as e:
+            ctx.violation("toy: exactly N events", ctx.exc_witness(e, **desc), mechanism="ARGenerator raises (bound %s, %s)" % (kind, type(mw).__name__))
+        ctx.case(("ar", i), nontrivial=kind != "about right")
+        ctx.covered("ar_bound", kind)
+
     # ------------------------------------------------------------ LinearInterp
     from tf_pwa.generator.linear_interpolation import LinearInterp
 
@@ -296,20 +336,27 @@ def run(ctx):
         if n < 4 * nbins:  # more bins than events is outside the domain (an empty bin cannot be split)
             n = 4 * nbins + int(rng.integers(0, 7))
             data = rng.normal(size=(nd, n)) if not ties else np.round(rng.normal(size=(nd, n)), 1)
-        desc = {"n_dim": nd, "n": n, "bins": bins, "ties": ties}
+        # single-precision data on the scale of masses in MeV (every fourth tie-free case)
+        f32 = (not ties) and (i // 4) % 4 == 1
+        if f32:
+            data = (data * 300.0 + 2000.0).astype(np.float32)
+        ctx.covered("adaptive_dtype", "float32 (MeV scale)" if f32 else "float64")
+        desc = {"n_dim": nd, "n": n, "bins": bins, "ties": ties, "dtype": str(data.dtype), "scale": "MeV-like (x300 + 2000)" if f32 else "O(1)"}
+        mech_sfx = " (float32 data)" if f32 else ""
         try:
             ab = AdaptiveBound(data, bins)
             masks = ab.get_bool_mask(data)
             cnt = np.sum(np.stack(masks).astype(int), axis=0)
             ctx.check("AdaptiveBound: every event in exactly one bin", len(masks) == nbins and bool(np.all(cnt == 1)),
-                      lambda: dict(desc, n_masks=len(masks), not_once=int(np.sum(cnt != 1))), mechanism="adaptive bins partition" + (" (data with ties)" if ties else ""))
+                      lambda: dict(desc, n_masks=len(masks), not_once=int(np.sum(cnt != 1))), mechanism="adaptive bins partition" + (" (data with ties)" if ties else "") + mech_sfx)
             parts = ab.split_data(data)
             tot = sum(p.shape[-1] for p in parts)
-            ctx.check("AdaptiveBound: every event in exactly one bin", tot == n, lambda: dict(desc, total=tot), mechanism="adaptive bins split_data total")
+            ctx.check("AdaptiveBound: every event in exactly one bin", tot == n, lambda: dict(desc, total=tot), mechanism="adaptive bins split_data total" + mech_sfx)
             # ANOTHER sample (the phase-space MC or background a chi2 is compared with) inside the bounding box of the binned one:
             # the bins tile the box, so each of its events is in exactly one bin as well
             lo_, hi_ = data.min(axis=1, keepdims=True), data.max(axis=1, keepdims=True)
-            other = lo_ + (hi_ - lo_) * rng.random((nd, 400))
+            other = (lo_ + (hi_ - lo_) * rng.random((nd, 400))).astype(data.dtype)
+            other = np.minimum(np.maximum(other, lo_), hi_)
             cnt2 = np.sum(np.stack(ab.get_bool_mask(other)).astype(int), axis=0)
             tot2 = sum(p.shape[-1] for p in ab.split_data(other))
             ctx.check("AdaptiveBound: every event in exactly one bin", bool(np.all(cnt2 == 1)) and tot2 == 400,
@@ -320,7 +367,7 @@ def run(ctx):
                 # each split level distributes its events within +-1 of equal shares
                 n_levels = sum(1 for b in bins for s in b if s > 1)
                 okp = bool(np.max(np.abs(pops - n / nbins)) <= 1 + n_levels)
-                ctx.check("AdaptiveBound: near-equal populations", okp, lambda: dict(desc, populations=pops.tolist(), ideal=n / nbins), mechanism="adaptive bins populations")
+                ctx.check("AdaptiveBound: near-equal populations", okp, lambda: dict(desc, populations=pops.tolist(), ideal=n / nbins), mechanism="adaptive bins populations" + mech_sfx)
         except Exception as e:
             ctx.violation("AdaptiveBound: every event in exactly one bin", ctx.exc_witness(e, **desc), mechanism="AdaptiveBound raises")
         ctx.case(("ab", nd, n, repr(bins), ties), nontrivial=nd >= 2 or layers >= 2)
